@@ -262,6 +262,15 @@ func (t *Dense) SliceInto(view *Dense, slices ...Slice) (retVal View, err error)
 
 	view.AP.zero()
 
+	// the reused view keeps nothing of what it was before: neither a pending lazy transpose
+	// (a later T() or UT() would bring back the old access pattern) nor a mask
+	view.old.zero()
+	if view.transposeWith != nil {
+		ReturnInts(view.transposeWith)
+		view.transposeWith = nil
+	}
+	view.mask = nil
+
 	view.t = t.t
 	view.e = t.e
 	view.oe = t.oe
